@@ -145,6 +145,7 @@ func checkC20(c *Ctx) (string, error) {
 			call *ast.CallExpr
 			name string
 			src  string
+			arg  ast.Expr // the tainted argument this obligation is about
 		}
 		var sinks []sink
 		inspectNoLit(u.body, func(x ast.Node) bool {
@@ -165,8 +166,10 @@ func checkC20(c *Ctx) (string, error) {
 					continue
 				}
 				if s, ok := hasSrc(a); ok {
-					sinks = append(sinks, sink{call, shortName(f), s})
-					break
+					sinks = append(sinks, sink{call, shortName(f), s, a})
+					if idx >= 0 {
+						break
+					}
 				}
 			}
 			return true
@@ -233,15 +236,14 @@ func checkC20(c *Ctx) (string, error) {
 					rel = append(rel, g)
 					continue
 				}
-				for _, a := range s.call.Args {
-					if mentions(info, a, g.tvar) {
-						rel = append(rel, g)
-						break
-					}
+				// a guard is relevant only if THIS argument is (derived from) the guarded variable: the
+				// guard on the link's location says nothing about the link's target
+				if mentions(info, s.arg, g.tvar) {
+					rel = append(rel, g)
 				}
 			}
 			if len(rel) == 0 {
-				c.Bad("R20.1", key, s.call.Pos(), "path derived from "+s.src+" reaches "+s.name+" with no destination-prefix guard: an entry named ../x or /x is created outside the destination")
+				c.Bad("R20.1", key, s.call.Pos(), "path derived from "+s.src+" reaches "+s.name+" ("+exprStr(s.arg)+") with no destination-prefix guard: an entry named ../x or /x (or a link pointing there) is created outside the destination")
 				continue
 			}
 			isGuardBlk := map[*cfg.Block]int{}
@@ -662,4 +664,11 @@ func init() {
 	addMutant(Mutant{Prop: "C20", Name: "lock-not-released", File: "internal/crosscompile/fetch.go",
 		Old: "\tdefer releaseLock(lockFile)\n\n\t// Double-check after acquiring lock\n\tif _, err := os.Stat(dir); err == nil {\n\t\treturn nil\n\t}\n\n\tclangUrl",
 		New: "\n\t// Double-check after acquiring lock\n\tif _, err := os.Stat(dir); err == nil {\n\t\treturn nil\n\t}\n\tdefer releaseLock(lockFile)\n\n\tclangUrl", Expect: "R20.3 checkDownloadAndExtractESPClang lock released"})
+}
+
+func init() {
+	addMutant(Mutant{Prop: "C20", Name: "tar-symlink-target-unchecked", File: "internal/crosscompile/fetch.go",
+		Old: "\t\t\tf.Close()\n\t\t}\n\t}\n\treturn nil\n}",
+		New: "\t\t\tf.Close()\n\t\tcase tar.TypeSymlink:\n\t\t\tif err := os.Symlink(header.Linkname, target); err != nil {\n\t\t\t\treturn err\n\t\t\t}\n\t\t}\n\t}\n\treturn nil\n}",
+		Expect: "R20.1 extractTarGz os.Symlink(archive/tar.Header.Linkname)"})
 }
